@@ -4,10 +4,10 @@ import WtfModel.Props.C14
 #print axioms Wtf.C14.accept_iff_all_controls
 #print axioms Wtf.C14.clean
 #print axioms Wtf.C14.clean_bytes
-#print axioms Wtf.C14.bytes_can_grow
+#print axioms Wtf.C14.result_chars
+#print axioms Wtf.C14.idem
 #print axioms Wtf.C14.idem_iff
-#print axioms Wtf.C14.idem_partial
-#print axioms Wtf.C14.idem_fails
+#print axioms Wtf.C14.idem_old_witness
 #print axioms Wtf.C14.pad_exact
 #print axioms Wtf.C14.pad
 #print axioms Wtf.C14.pad_inner
